@@ -299,6 +299,168 @@ def decide(schemas, refs, outs, all_pairs=True):
             "samples": samples, "ref_schema": ref_schema, "dumps": dumps}
 
 
+# ------------------------------------------------------------------ thorough tier: the table inside the kernel
+FACTS = os.path.join(LEAN, "EngineModel", "Gen", "SchemaFacts.lean")
+KERNEL_BUDGET_S = int(os.environ.get("VERIF_C12_KERNEL_BUDGET", "720"))
+
+
+def _unhex(t):
+    return b"" if t == "-" else bytes.fromhex(t)
+
+
+def parse_dump_text(text):
+    """the catalog text form of harness/djv_schema.cpp -> (master, tables, indexes) with byte strings"""
+    toks = text.split()
+    pos = [0]
+
+    def nxt():
+        pos[0] += 1
+        return toks[pos[0] - 1]
+
+    def ostr():
+        t = nxt()
+        return None if t == "none" else _unhex(t)
+    assert nxt() == "M"
+    M = [(nxt().encode(), nxt().encode(), _unhex(nxt()), _unhex(nxt()), ostr()) for _ in range(int(nxt()))]
+    assert nxt() == "T"
+    T = []
+    for _ in range(int(nxt())):
+        db, tb = nxt().encode(), _unhex(nxt())
+        T.append((db, tb, [(_unhex(nxt()), _unhex(nxt()), int(nxt()), ostr(), int(nxt())) for _ in range(int(nxt()))]))
+    assert nxt() == "X"
+    X = []
+    for _ in range(int(nxt())):
+        db, tb = nxt().encode(), _unhex(nxt())
+        idx = []
+        for _ in range(int(nxt())):
+            n, u, o, p_ = _unhex(nxt()), int(nxt()), _unhex(nxt()), int(nxt())
+            idx.append((n, u, o, p_, [(int(nxt()), ostr()) for _ in range(int(nxt()))]))
+        X.append((db, tb, idx))
+    assert pos[0] == len(toks)
+    return M, T, X
+
+
+def _int(n):
+    return str(n) if n >= 0 else "(%d)" % n
+
+
+class _Strs:
+    """every distinct byte string becomes one constant `s<k> : NStr := dec <len> 0x<little-endian number>`"""
+    def __init__(self):
+        self.ix, self.defs = {}, []
+
+    def ns(self, b):
+        if b not in self.ix:
+            self.ix[b] = len(self.defs)
+            self.defs.append("def s%d : NStr := dec %d 0x%s" % (len(self.defs), len(b), (b[::-1].hex() or "0")))
+        return "s%d" % self.ix[b]
+
+    def ons(self, b):
+        return "none" if b is None else "(some %s)" % self.ns(b)
+
+
+def emit_facts(dumps, pairs_named, excluded):
+    """dumps: id -> catalog text; pairs_named: [(created id, reference id)] that belong together and must be equal."""
+    parsed, order, index = {}, [], {}
+    for i, txt in dumps.items():
+        if txt not in index:
+            index[txt] = len(order)
+            order.append(i)
+            parsed[i] = parse_dump_text(txt)
+    did = {i: index[dumps[i]] for i in dumps}
+    texts, tindex = [], {}
+    for i in order:
+        for m in parsed[i][0]:
+            if m[4] is not None and m[4] not in tindex:
+                tindex[m[4]] = len(texts)
+                texts.append(m[4])
+    out = runner.run_model_script(["#mode schema", "canoncls " + " ".join(t.hex() or "-" for t in texts)])
+    if not out[1].startswith("ok"):
+        raise RuntimeError("canoncls: " + out[1][:200])
+    cls = [int(x) for x in out[1].split()[1:]]
+    assert len(cls) == len(texts)
+    S = _Strs()
+    body = []
+    for k, i in enumerate(order):
+        M, T, X = parsed[i]
+        body.append("/-- %s -/" % i)
+        body.append("def d%d : IDump := ⟨[" % k)
+        body.append(",\n".join("  ⟨%s,%s,%s,%s,%s⟩" % (S.ns(a), S.ns(b), S.ns(c), S.ns(d), "none" if e is None else "some %d" % tindex[e])
+                               for a, b, c, d, e in M) + "],\n [")
+        body.append(",\n".join("  ⟨%s,%s,[%s]⟩" % (S.ns(a), S.ns(b), ",".join(
+            "⟨%s,%s,%s,%s,%s⟩" % (S.ns(n), S.ns(ty), _int(nn), S.ons(dd), _int(pk)) for n, ty, nn, dd, pk in cols)) for a, b, cols in T) + "],\n [")
+        body.append(",\n".join("  ⟨%s,%s,[%s]⟩" % (S.ns(a), S.ns(b), ",".join(
+            "⟨%s,%s,%s,%s,[%s]⟩" % (S.ns(n), _int(u), S.ns(o), _int(p_), ",".join("⟨%s,%s⟩" % (_int(sq), S.ons(c)) for sq, c in cs))
+            for n, u, o, p_, cs in idx)) for a, b, idx in X) + "]⟩")
+    L = ["/- GENERATED by tools/props/C12.py (thorough tier) from the catalogs read back from the libraries the real code",
+         "created and from the hydrated reference scripts of /repo's working tree.  Do not edit. -/",
+         "import EngineModel.Spec.SchemaFactsCore", "import EngineModel.Spec.BytesLit", "namespace EngineModel.Gen.SchemaFacts",
+         "open EngineModel.Spec.SchemaFacts EngineModel.Spec.SchemaDump", "set_option maxRecDepth 1000000", "set_option maxHeartbeats 4000000", "",
+         "/-- the %d distinct DDL texts (%d bytes), each an explicit `List Char` literal written as hex (`bytes%%`) -/" % (len(texts), sum(len(t) for t in texts)),
+         "noncomputable def texts : List Str := ["]
+    L.append(",\n".join('  bytes% "' + t.hex() + '"' for t in texts) + "]")
+    L.append("def cls : List Nat := [%s]" % ",".join(str(c) for c in cls))
+    L += S.defs + body
+    L.append("def dumps : List IDump := [%s]" % ", ".join("d%d" % k for k in range(len(order))))
+    prs = sorted({(did[a], did[b]) for a, b in pairs_named})
+    L.append("/-- (created catalog, reference catalog of the same schema version) -/")
+    L.append("def pairs : List (Nat × Nat) := [%s]" % ", ".join("(%d, %d)" % p for p in prs))
+    L.append("/-- which libraries each catalog index stands for -/")
+    names = {}
+    for i in dumps:
+        names.setdefault(did[i], []).append(i)
+    L.append("def names : List String := [%s]" % ", ".join('"%s"' % " = ".join(names[k]) for k in range(len(order))))
+    L.append("/-- pairs left out because they are recorded findings (they do differ) -/")
+    L.append("def excluded : List String := [%s]" % ", ".join('"%s ~ %s"' % e for e in excluded))
+    L.append("end EngineModel.Gen.SchemaFacts")
+    with open(FACTS, "w") as f:
+        f.write("\n".join(L) + "\n")
+    return {"texts": len(texts), "text_bytes": sum(len(t) for t in texts), "classes": len(set(cls)),
+            "catalogs": len(order), "pairs": len(prs), "excluded": len(excluded), "strings": len(S.defs)}
+
+
+def kernel_table(r, known):
+    """Emit Gen/SchemaFacts.lean and let the kernel close Properties/C12Table.lean within the budget."""
+    t0 = time.time()
+    dumps = {i: d for i, (info, d) in r["dumps"].items() if not i.endswith(".reloaded")}
+    pairs, excluded = [], []
+    for rel, s in r["ref_schema"].items():
+        if s in UNCLAIMED or s == "unsupported":
+            continue
+        for form in ("mem", "disk"):
+            c, rr = "c.%s.%s" % (s, form), "r." + rel
+            if c not in dumps or rr not in dumps:
+                continue
+            if any(k.get("schema") == s and k.get("ref") == rel for k in known):
+                excluded.append((c, rr))
+            else:
+                pairs.append((c, rr))
+    try:
+        stats = emit_facts(dumps, pairs, excluded)
+    except Exception as e:
+        return {"status": "failed", "why": "emitting the facts: %r" % (e,)}
+    try:
+        p = subprocess.run(["lake", "build", "Properties.C12Table"], cwd=LEAN, stdout=subprocess.PIPE, stderr=subprocess.STDOUT,
+                           text=True, timeout=KERNEL_BUDGET_S)
+    except subprocess.TimeoutExpired:
+        subprocess.run(["pkill", "-f", "Properties/C12Table.lean"])
+        return dict(stats, status="skipped", why="kernel evaluation exceeded the budget of %d s (reported, not silent)" % KERNEL_BUDGET_S,
+                    wall_s=round(time.time() - t0, 1))
+    if p.returncode != 0:
+        return dict(stats, status="failed", why=p.stdout[-1500:], wall_s=round(time.time() - t0, 1))
+    import audit as auditmod
+    names = ["EngineModel.Properties.C12Table." + t for t in ("classes_checked", "table_checked", "C12_table")]
+    ax = auditmod.axioms_and_statements(names, imports=("Properties.C12Table",))
+    allowed = {"propext", "Classical.choice", "Quot.sound"}
+    bad = [n for n in names if ax[n].get("axioms") is None or not set(ax[n]["axioms"]) <= allowed]
+    lock = auditmod.load_lock("C12Table")      # written once: tools/props/C12.py lock-table
+    stale = [n for n in names if lock.get(n) != ax[n].get("stmt_sha")]
+    if bad or stale:
+        return dict(stats, status="failed", why="axioms / statement lock: %r %r" % (bad, stale), wall_s=round(time.time() - t0, 1))
+    return dict(stats, status="ok", wall_s=round(time.time() - t0, 1),
+                theorems={n: ax[n].get("axioms") for n in names})
+
+
 def tie(ctx):
     refs = ref_dirs()
     outs = collect(SCHEMAS, refs)
@@ -313,6 +475,15 @@ def tie(ctx):
     except (OSError, ValueError, KeyError):
         known = []
     ok = not [v for v in r["violations"] if v["signature"] not in known] and not r["divergences"]
+    if ctx.tier == "thorough":
+        kt = kernel_table(r, known)
+        r["extra"]["kernel_table"] = kt
+        if kt["status"] == "failed":
+            ok = False
+            r["divergences"].append({"input": "Properties/C12Table.lean over Gen/SchemaFacts.lean", "impl": "(n/a)",
+                                     "model": "the kernel does not close C12_table: " + str(kt.get("why"))[-600:]})
+    else:
+        r["extra"]["kernel_table"] = {"status": "not-run", "why": "thorough tier only"}
     return {
         "ok": ok,
         "evaluations": r["evaluations"],
@@ -351,3 +522,9 @@ def replay(ctx, hdr, body):
     if not r["violations"] and not r["divergences"]:
         txt.append("no difference now")
     return (not r["violations"] and not r["divergences"]), "\n".join(txt)
+
+
+if __name__ == "__main__" and sys.argv[1:] == ["lock-table"]:
+    import audit as auditmod
+    print(auditmod.write_lock("C12Table", ["EngineModel.Properties.C12Table." + t for t in ("classes_checked", "table_checked", "C12_table")],
+                              imports=("Properties.C12Table",)))
